@@ -4,7 +4,11 @@ package dlog
 
 import (
 	"context"
+	"strconv"
+	"strings"
 	"sync"
+	"sync/atomic"
+	"time"
 
 	"github.com/mimecast/dtail/internal/config"
 	"github.com/mimecast/dtail/internal/io/dlog/loggers"
@@ -27,7 +31,7 @@ func VerifStart(ctx context.Context, wg *sync.WaitGroup, sourceProcess source.So
 	if separateServer {
 		hostname, _ := config.Hostname()
 		Server = &DLog{
-			logger:        loggers.Factory(source.Server.String(), "none", loggers.NewStrategy("")),
+			logger:        &verifCapture{},
 			sourceProcess: source.Server,
 			sourcePackage: source.Server,
 			maxLevel:      newLevel(config.DefaultLogLevel),
@@ -78,5 +82,54 @@ func VerifReset() {
 	defer mutex.Unlock()
 	started = false
 	Client, Server, Common = nil, nil, nil
+	verifReported.Store(0)
+	verifReportedSeen.Store(false)
 	loggers.VerifResetFactory()
+}
+
+// verifCapture is the logger of a simulated dserver process: it drops
+// everything but remembers the number of open connections the server reported
+// last (the STATS record it writes at every change and every 10 s). C14 reads
+// the server's own count from there - the number an operator sees - and not
+// from a private field.
+type verifCapture struct{}
+
+var verifReported atomic.Int64
+var verifReportedSeen atomic.Bool
+
+func (*verifCapture) note(message string) {
+	const key = "currentConnections="
+	i := strings.Index(message, key)
+	if i < 0 {
+		return
+	}
+	rest := message[i+len(key):]
+	if j := strings.IndexAny(rest, "|\n "); j >= 0 {
+		rest = rest[:j]
+	}
+	if n, err := strconv.ParseInt(rest, 10, 64); err == nil {
+		verifReported.Store(n)
+		verifReportedSeen.Store(true)
+	}
+}
+
+func (c *verifCapture) Start(ctx context.Context, wg *sync.WaitGroup) { wg.Done() }
+func (c *verifCapture) Log(now time.Time, message string)             { c.note(message) }
+func (c *verifCapture) LogWithColors(now time.Time, message, coloredMessage string) {
+	c.note(message)
+}
+func (c *verifCapture) Raw(now time.Time, message string) { c.note(message) }
+func (c *verifCapture) RawWithColors(now time.Time, message, coloredMessage string) {
+	c.note(message)
+}
+func (*verifCapture) Flush()               {}
+func (*verifCapture) Pause()               {}
+func (*verifCapture) Resume()              {}
+func (*verifCapture) Rotate()              {}
+func (*verifCapture) SupportsColors() bool { return false }
+
+// VerifReportedConnections returns the currentConnections value of the last
+// STATS record of the simulated dserver (ok false: none written yet).
+func VerifReportedConnections() (n int, ok bool) {
+	return int(verifReported.Load()), verifReportedSeen.Load()
 }
